@@ -12,7 +12,7 @@ use super::recon::{state_of, states_from_subsets, State};
 use crate::{
     report::Report,
     sut::Sut,
-    universe::{author_id, ns_id, show_entries, show_key, Spec, Val, K7},
+    universe::{author_id, ns_id, show_entries, show_key, Spec, Val, K9},
     util::{catch, fnv},
     Ctx, PropDef, Tier,
 };
@@ -21,14 +21,14 @@ pub fn def() -> PropDef {
     PropDef {
         id: "C05",
         level: "exploration",
-        rule: "every replica state reachable by offering a subset of a two-author universe over keys {'',a,a\\xff,ab,b,\\xff,\\xff\\xff} (children offered before parents so that prefix deletion leaves stale by-key index rows) x the full product query kind {flat author-key, flat key-author, latest-per-key} x author filter {any,A1,A2,unknown} x key filter {any, exact k, prefix p} x direction x include-empty x offset {0,1,2} x limit {none,0,1,2}, plus get_exact for every (author,key,include_empty); the oracle is a list comprehension over the reference dump; non-trivial = the reference answer before offset/limit is non-empty and the query has a filter, a non-default order or a window",
+        rule: "every replica state reachable by offering a subset of a two-author universe over keys {'',a,a\\xff,a\\xff\\xff,ab,b,b\\x00,\\xff,\\xff\\xff} (children offered before parents so that prefix deletion leaves stale by-key index rows) x the full product query kind {flat author-key, flat key-author, latest-per-key} x author filter {any,A1,A2,unknown} x key filter {any, exact k, prefix p} x direction x include-empty x offset {0,1,2} x limit {none,0,1,2}, plus get_exact for every (author,key,include_empty); the oracle is a list comprehension over the reference dump; non-trivial = the reference answer before offset/limit is non-empty and the query has a filter, a non-default order or a window",
         assumptions: &[
             "latest-per-key follows the statement and the API documentation: key filter before grouping, greatest timestamp among all authors, author filter after grouping; among several entries tied for the greatest timestamp any is accepted",
             "states hold at most 4 offered entries",
         ],
         bound: |t| match t {
-            Tier::Quick => json!({"states": "subsets <= 3 of a 14-entry universe", "queries_per_state": 8640}),
-            Tier::Thorough => json!({"states": "subsets <= 4 of the 14-entry universe and subsets <= 3 of a 22-entry universe", "queries_per_state": 8640}),
+            Tier::Quick => json!({"states": "subsets <= 3 of a 15-entry universe", "queries_per_state": 10944}),
+            Tier::Thorough => json!({"states": "subsets <= 4 of the 15-entry universe and subsets <= 3 of a 23-entry universe", "queries_per_state": 10944}),
         },
         run,
         replay,
@@ -42,6 +42,7 @@ fn universe14() -> Vec<Spec> {
         Spec::new(0, 0, b"ab", 1, Val::X),
         Spec::new(0, 0, b"ab", 3, Val::Y),
         Spec::new(0, 0, b"a\xff", 1, Val::X),
+        Spec::new(0, 0, b"a\xff\xff", 1, Val::Y),
         Spec::new(0, 0, b"\xff\xff", 2, Val::Del),
         Spec::new(0, 0, b"\xff", 1, Val::X),
         Spec::new(0, 0, b"b", 2, Val::X),
@@ -247,10 +248,10 @@ pub fn reference(dump: &[SignedEntry], q: &Q) -> (Vec<Vec<SignedEntry>>, bool) {
 
 fn all_queries() -> Vec<Q> {
     let mut kfs = vec![KF::Any];
-    for k in K7 {
+    for k in K9 {
         kfs.push(KF::Exact(k.to_vec()));
     }
-    for k in K7 {
+    for k in K9 {
         kfs.push(KF::Prefix(k.to_vec()));
     }
     let mut v = vec![];
@@ -376,7 +377,7 @@ fn check_state(
     // point lookups agree with exact queries
     let mut n = queries.len() as u64;
     for a in [AF::A(0), AF::A(1), AF::Unknown] {
-        for k in K7 {
+        for k in K9 {
             for include_empty in [true, false] {
                 n += 1;
                 let q = Q {
